@@ -88,6 +88,10 @@ Definition site_ok_for (s : site) (r : reg) : bool :=
 
 Definition site_ok (regs : list reg) (s : site) : bool := forallb (site_ok_for s) regs.
 
+(* a site no registration owns would pass site_ok vacuously (a renamed body, a function called from elsewhere) *)
+Definition site_owned (regs : list reg) (s : site) : bool :=
+  existsb (fun r => match site_shift s r with Some _ => true | None => false end) regs.
+
 (* non-constant indexes into the argument slice: allowed only in functions whose loop is modelled and proved
    (Object: pairs[i], pairs[i+1] — proofs/ExEvalProofs.v object_pairs_ok) *)
 Definition dynamic_allowed : list string := ["Object"%string].
